@@ -4,7 +4,7 @@
    (SetFloat64 rounds to the precision the destination was configured with: exactness is NOT assumed, it follows from
    the check in float64ToBigFloat), NaN is never stored into a big.Float.  Subject: gen/Numeric_gen.v. *)
 From Coq Require Import ZArith List String Bool Lia.
-From GCNP Require Import base.GoInt base.GoNum gen.Numeric_gen proofs.NumericBase.
+From GCNP Require Import base.GoInt base.GoNum gen.Numeric_gen proofs.NumericBase model.NumCases model.NumContracts.
 Import ListNotations.
 Open Scope Z_scope.
 
@@ -185,4 +185,22 @@ Example float_examples :
   convertFromFloat64 Otoy 5 false (D_pbigfloat false 1) = Err /\
   convertFromFloat64 Otoy 6 false (D_pbigfloat false 1) = Ok (Some (G_bigfloat (6, 0))) /\
   convertFromFloat64 Otoy 7 false (D_pfloat32 false) = Ok (Some (G_float32 7)).
+Proof. repeat split; vm_compute; reflexivity. Qed.
+
+(* ---- the denotations under which the check instantiates the premises on the real library's answers (model/NumContracts.v):
+   sanity of the IEEE-754 decoding and of the decimal-string denotation on known values *)
+Example denotation_examples :
+  f64_value 4607182418800017408 = FFin 1 0 /\                      (* 1.0 *)
+  f64_value 4591870180066957722 = FFin 3602879701896397 (-55) /\   (* 0.1 *)
+  f64_value 1 = FFin 1 (-1074) /\                                  (* smallest subnormal *)
+  f64_value 9218868437227405311 = FFin 9007199254740991 971 /\     (* MaxFloat64 *)
+  f64_value 9223372036854775808 = FFin 0 0 /\                      (* -0 *)
+  f64_value 13835058055282163712 = FFin (-1) 1 /\                  (* -2.0 *)
+  f64_value 9218868437227405312 = FInf false /\ f64_value 18442240474082181120 = FInf true /\
+  f64_value 9221120237041090560 = FNaN /\ f64_value 9218868437227405313 = FNaN /\
+  f32_value 1065353216 = FFin 1 0 /\ f32_value 1 = FFin 1 (-149) /\ f32_value 2139095039 = FFin 16777215 104 /\
+  f32_value 2143289344 = FNaN /\ f32_value 4286578688 = FInf true /\
+  bf_value (5, -3) = FFin 5 (-3) /\ bf_value (0, -1) = FFin 0 0 /\ bf_value (-1, 1000000) = FInf true /\ bf_value (12, 0) = FFin 3 2 /\
+  godec "-128" = Some (-128) /\ godec "+5" = Some 5 /\ godec "007" = Some 7 /\ godec "-0" = Some 0 /\
+  godec "" = None /\ godec "-" = None /\ godec "1e3" = None /\ godec " 5" = None /\ godec "0x10" = None /\ godec "1_000" = None.
 Proof. repeat split; vm_compute; reflexivity. Qed.
